@@ -59,7 +59,7 @@ int main(void) {
 	if (!has_lang && !has_ql) CHECK(q1 == ENGLISH, "quotes language changes only through language / quoteslanguage");
 	/* the decision does not depend on the order of the keys */
 	if (IN.swap) { run(1, &e2, &b2, &l2, &q2, &f2, &s2); CHECK(e2 == e1, "complete/snippet decision independent of key order"); }
-	COVER(e1 != IN.ext); COVER(other && e1 == IN.ext && !off); COVER(b1 != 1); COVER(f1 != IN.fmt); COVER(l1 != LC_EN); COVER(IN.n == NMAX && IN.swap);
+	COVER(e1 != IN.ext); COVER(other && e1 == IN.ext && !off); COVER(b1 != 1); COVER_OPT(f1 != IN.fmt); COVER(l1 != LC_EN); COVER(IN.n == NMAX && IN.swap);
 	COVER(1);
 	return 0;
 }
